@@ -283,6 +283,25 @@ pub fn run(c: &Value) -> Value {
             let lex_again: Vec<Value> = inputs.iter().rev().map(|s| lex_parse(fmt, s).0).collect::<Vec<_>>().into_iter().rev().collect();
             json!({"inputs":inputs,"multi":multi,"multi_panic":multi_panic,"alone":alone,"twice":twice,"chars":chars,"lex_seq":lex_seq,"lex_again":lex_again})
         }
+        // ------------------------------------------------------------ M1 event trace (hooks, --cfg narsese_verif)
+        "trace_multi" => {
+            use narsese::conversion::string::impl_enum::verif_trace;
+            let fmt = s_of(c, "fmt");
+            let f = enum_format(fmt);
+            let inputs: Vec<String> = c["inputs"].as_array().expect("inputs").iter().map(|x| match x {
+                Value::String(s) => s.clone(),
+                Value::Array(a) => a.iter().map(|t| t.as_str().unwrap()).collect(),
+                _ => panic!("bad input"),
+            }).collect();
+            verif_trace::install();
+            let r = guarded(|| f.parse_multi(inputs.iter().map(|s| s.as_str())));
+            let events: Vec<Value> = verif_trace::take().iter().map(|e| serde_json::from_str(e).unwrap_or(json!({"ev":"unparsable"}))).collect();
+            let results = match r {
+                Ok(v) => Value::Array(v.into_iter().map(|x| res(Ok(x), narsese_to)).collect()),
+                Err(p) => json!([{"r":"panic","msg":p}]),
+            };
+            json!({"inputs":inputs,"events":events,"results":results})
+        }
         // ------------------------------------------------------------ C06 / C07
         "eqhash" => {
             let reps = c.get("reps").and_then(|r| r.as_u64()).unwrap_or(4) as usize;
